@@ -328,7 +328,7 @@ func main() {
 		buildDir, _ = os.MkdirTemp("", "c16")
 	}
 	t2g = filepath.Join(buildDir, "tars2go")
-	if out, err := exec.Command("sh", "-c", "cd "+vlib.Repo()+"/tars/tools/tars2go && go build -o "+t2g+" .").CombinedOutput(); err != nil {
+	if out, err := exec.Command("sh", "-c", "cd "+vlib.Repo()+"/tars/tools/tars2go && GOFLAGS=-mod=mod go build -o "+t2g+" .").CombinedOutput(); err != nil {
 		fmt.Println("cannot build tars2go:", string(out))
 		os.Exit(3)
 	}
